@@ -96,7 +96,7 @@ def run_wcl(c: Ctx, handler: Rec, event: Rec, depth: int = 0):
     ps = w.params()
     ov = dict(FWD_OVERRIDES)
     ov['._handler_dispatched_ancestor'] = lambda *a: depth
-    ai = AbsInt(calls=ov)
+    ai = AbsInt(calls=ov, program=c.prog, module=w.module)
     env = {ps[0]: Rec(name='A', _cls='EventBus'), ps[1]: event, ps[2]: handler, 'EventBus': Rec(dispatch=Obj('function', 'EventBus.dispatch'), _is_class=True)}
     end = ai.run(w.node.body, bind_defaults(w, env))
     if ai.undecided:
